@@ -133,9 +133,15 @@ namespace sim
 		const int packet_size = int(p.buffer.size() + p.overhead);
 		m_queue_size -= packet_size;
 
+		// forwarding the packet may deliver a new packet to this very queue (a
+		// reply routed back through the same hop). If the queue is empty at
+		// that point, incoming_packet() starts the sender itself, so only
+		// continue with packets that were already waiting.
+		bool const more = !m_queue.empty();
+
 		forward_packet(std::move(p));
 
-		if (m_queue.size())
+		if (more)
 			begin_send_next_packet();
 	}
 }
